@@ -110,6 +110,7 @@ type Interp struct {
 	totalSteps int64
 	mapOrder  bool
 	forceLibSite bool
+	engineOnly   bool
 	known     map[*Term]bool
 	concKnown map[*Term]uint64
 	substGen  int
